@@ -192,22 +192,89 @@ pub fn miri_stage(ctx: &Ctx, build_dir: &Path) -> (u64, Option<Value>, Option<St
     (0, Some(report), Some(format!("Miri run was inconclusive: {}", stderr.lines().last().unwrap_or(""))))
 }
 
+/// 32-bit-limb stage (C05, C14): the crate picks `Limb = u32` (with its own copy of 5^135 and 9-digit
+/// chunks) from `target_pointer_width`, which no feature flag can select on this x86_64 machine; Miri can
+/// interpret the i686 build.  Limb-width dependent constants + generated boundary inputs judged by the exact
+/// oracle in the default, compact and alloc configurations.  Quick: constants + 4 inputs; thorough: 150.
+/// Returns (violations, report, harness_error).
+pub fn l32_stage(ctx: &Ctx, build_dir: &Path) -> (u64, Option<Value>, Option<String>) {
+    if !matches!(ctx.id.as_str(), "C05" | "C14") || (ctx.id == "C05" && ctx.tier.name() == "quick") {
+        return (0, None, None);
+    }
+    if std::env::var("MLV_SKIP_FUZZ").is_ok() && ctx.id != "C14" {
+        return (0, None, None);
+    }
+    let harness = ctx.verif_dir.join("harness");
+    let count: u64 = if ctx.tier.name() == "quick" { 4 } else { std::env::var("VERIF_L32_CASES").ok().and_then(|s| s.parse().ok()).unwrap_or(150) };
+    let mut cmd = Command::new("cargo");
+    cmd.current_dir(&harness)
+        .args(["+nightly", "miri", "run", "-q", "--target", "i686-unknown-linux-gnu", "-p", "mlv", "--bin", "mlv-miri", "--"])
+        .args(["L32", &count.to_string(), &ctx.seed.to_string()])
+        .env("MIRIFLAGS", "-Zmiri-tree-borrows -Zmiri-disable-isolation -Zmiri-no-extra-rounding-error")
+        .env("CARGO_TARGET_DIR", build_dir.join("miri"))
+        .env("CARGO_NET_OFFLINE", "true")
+        .stdin(Stdio::null())
+        .stdout(Stdio::piped())
+        .stderr(Stdio::piped());
+    let start = Instant::now();
+    let out = match cmd.output() {
+        Ok(o) => o,
+        Err(e) => return (0, None, Some(format!("cannot run Miri (i686): {e}"))),
+    };
+    let stdout = String::from_utf8_lossy(&out.stdout).to_string();
+    let stderr = String::from_utf8_lossy(&out.stderr).to_string();
+    let cases = stdout.lines().filter(|l| l.starts_with("MIRI-CASE")).count();
+    let report = json!({"engine": "Miri, --target i686-unknown-linux-gnu (32-bit limbs), tree borrows", "generated_inputs": count, "steps_executed": cases,
+                        "wall_s": start.elapsed().as_secs_f64(), "ok": out.status.success(),
+                        "samples": stdout.lines().filter(|l| l.starts_with("MIRI-CASE")).take(6).collect::<Vec<_>>() });
+    if out.status.success() && stdout.contains("MIRI-OK L32") && stdout.contains("pointer width = 32") {
+        return (0, Some(report), None);
+    }
+    if let Some(v) = stdout.lines().find(|l| l.starts_with("MIRI-VIOLATION")) {
+        let path = ctx.verif_dir.join("replays").join(format!("{}-l32-{}.json", ctx.id, ctx.seed));
+        std::fs::create_dir_all(ctx.verif_dir.join("replays")).ok();
+        let doc = json!({"property": ctx.id, "message": v, "case": {"kind": "l32", "seed": ctx.seed, "count": count, "line": v}});
+        let _ = std::fs::write(&path, serde_json::to_string_pretty(&doc).unwrap());
+        eprintln!("32-bit-limb stage: {v}");
+        println!("VIOLATION property={} replay={}", ctx.id, path.display());
+        return (1, Some(report), None);
+    }
+    if stderr.contains("Undefined Behavior") {
+        let path = ctx.verif_dir.join("replays").join(format!("{}-l32-{}.json", ctx.id, ctx.seed));
+        let detail: String = stderr.lines().filter(|l| l.contains("Undefined Behavior") || l.contains("-->")).take(6).collect::<Vec<_>>().join(" | ");
+        let doc = json!({"property": ctx.id, "message": format!("Miri (i686) reported undefined behaviour: {detail}"), "case": {"kind": "l32", "seed": ctx.seed, "count": count}});
+        let _ = std::fs::write(&path, serde_json::to_string_pretty(&doc).unwrap());
+        println!("VIOLATION property={} replay={}", ctx.id, path.display());
+        return (1, Some(report), None);
+    }
+    (0, Some(report), Some(format!("32-bit-limb Miri stage was inconclusive: {}", stderr.lines().last().unwrap_or(""))))
+}
+
 /// For properties that are not process-supervised: run the registered fuzz
 /// campaigns after the in-process check and merge them into the evidence file.
 pub fn fuzz_poststep(ctx: &Ctx, code: i32) -> i32 {
-    if fuzz_targets_for(&ctx.id).is_empty() || code != 0 {
+    let wants_l32 = matches!(ctx.id.as_str(), "C05" | "C14");
+    if (fuzz_targets_for(&ctx.id).is_empty() && !wants_l32) || code != 0 {
         return code;
     }
     let build_dir = PathBuf::from(std::env::var("MLV_BUILD_DIR").unwrap_or_else(|_| ctx.verif_dir.join("build").display().to_string()));
     let budget = Duration::from_secs(if ctx.tier.name() == "quick" { 1800 } else { 6 * 3600 });
-    let (violations, reports, err) = fuzz_stage(ctx, &build_dir, budget);
+    let (mut violations, reports, mut err) = fuzz_stage(ctx, &build_dir, budget);
+    let (lv, l32_report, lerr) = l32_stage(ctx, &build_dir);
+    violations += lv;
+    if err.is_none() {
+        err = lerr;
+    }
     let epath = ctx.verif_dir.join("evidence").join(format!("{}.json", ctx.id));
     if let Some(mut ev) = read_json(&epath) {
         let execs: u64 = reports.iter().map(|r| r["executions"].as_u64().unwrap_or(0)).sum();
         let base = ev["coverage"]["evaluations"].as_u64().unwrap_or(0);
         ev["coverage"]["evaluations"] = json!(base + execs);
         ev["coverage"]["fuzz"] = json!(reports);
-        ev["coverage"]["note"] = json!("evaluations = generated proptest cases + libFuzzer executions (second engine); distinct_nontrivial counts proptest cases only");
+        if let Some(l) = &l32_report {
+            ev["coverage"]["limb32_stage"] = l.clone();
+        }
+        ev["coverage"]["note"] = json!("evaluations = generated proptest / enumerated cases + libFuzzer executions (second engine); distinct_nontrivial counts the former only");
         ev["violations"] = json!(ev["violations"].as_u64().unwrap_or(0) + violations);
         ev["wall_s"] = json!(ctx.start.elapsed().as_secs_f64());
         let _ = std::fs::write(&epath, serde_json::to_string_pretty(&ev).unwrap());
@@ -221,7 +288,7 @@ pub fn fuzz_poststep(ctx: &Ctx, code: i32) -> i32 {
         println!("INCONCLUSIVE property={} {} (exit 2)", ctx.id, e);
         return 2;
     }
-    println!("OK property={} fuzz stage: {} campaign(s), no crash", ctx.id, reports.len());
+    println!("OK property={} post-stages: {} fuzz campaign(s){}, no violation", ctx.id, reports.len(), if l32_report.is_some() { " + 32-bit-limb Miri stage" } else { "" });
     0
 }
 
